@@ -936,3 +936,53 @@ Proof.
     destruct (st_infr s6 && sna32LT (st_cum s) cum)%bool; inversion Ef; subst; unfold floor_ok in *; cbn; assumption.
   - destruct (st_infr s4 && sna32LT (st_cum s) cum)%bool; inversion Ef; subst; unfold floor_ok in *; cbn; assumption.
 Qed.
+
+(* ---------------------------------------------------------------- C03: invalid and stale acknowledgements *)
+
+(* a SACK older than the cumulative ack point is ignored *)
+Lemma sack_stale_ignored s cum arwnd gaps :
+  state_accepts_sack (st_state s) = true -> sna32GT (st_cum s) cum = true -> sack_step s cum arwnd gaps = SOk s.
+Proof. intros H1 H2. unfold sack_step. rewrite H1, H2. reflexivity. Qed.
+
+Lemma sack_ignored_outside_data_states s cum arwnd gaps :
+  state_accepts_sack (st_state s) = false -> sack_step s cum arwnd gaps = SOk s.
+Proof. intros H1. unfold sack_step. rewrite H1. reflexivity. Qed.
+
+(* whole-SACK validation precedes every mutation: an invalid SACK is rejected (and the event leaves the
+   state as it was, see sstep) *)
+Lemma sack_invalid_rejected s cum arwnd gaps :
+  state_accepts_sack (st_state s) = true -> sna32GT (st_cum s) cum = false ->
+  sack_valid s cum gaps = false -> sack_step s cum arwnd gaps = SErr.
+Proof. intros H1 H2 H3. unfold sack_step. rewrite H1, H2, H3. reflexivity. Qed.
+
+Lemma sack_valid_gap_conditions s cum gaps gs ge :
+  sack_valid s cum gaps = true -> In (gs, ge) gaps ->
+  gs <> 0 /\ gs <= ge /\ infl_get s (wrap32 (cum + gs)) <> None /\ infl_get s (wrap32 (cum + ge)) <> None.
+Proof.
+  unfold sack_valid. intros H Hin. apply andb_true_iff in H. destruct H as [_ H].
+  rewrite forallb_forall in H. specialize (H (gs, ge) Hin). cbn in H.
+  apply andb_true_iff in H. destruct H as [H H3]. apply andb_true_iff in H. destruct H as [H1 H2].
+  destruct (infl_get s (wrap32 (cum + gs))) as [c|] eqn:E1; [|discriminate].
+  split; [lia|]. split; [lia|]. split; [discriminate|].
+  destruct (wrap32 (cum + ge) =? wrap32 (cum + gs)) eqn:E2.
+  - apply Z.eqb_eq in E2. rewrite E2, E1. discriminate.
+  - destruct (infl_get s (wrap32 (cum + ge))); [discriminate|discriminate].
+Qed.
+
+Lemma sack_valid_cum_in_flight s cum gaps :
+  sack_valid s cum gaps = true -> sna32LT (st_cum s) cum = true ->
+  infl_get s (wrap32 (st_cum s + 1)) <> None /\ infl_get s cum <> None.
+Proof.
+  unfold sack_valid. intros H Hlt. apply andb_true_iff in H. destruct H as [H _]. rewrite Hlt in H.
+  destruct (infl_get s (wrap32 (st_cum s + 1))); [|discriminate].
+  destruct (infl_get s cum); [|discriminate]. split; discriminate.
+Qed.
+
+(* a TSN the in-flight queue does not hold (never sent, or already released) cannot be acknowledged *)
+Lemma infl_get_in_range s tsn c : infl_get s tsn = Some c ->
+  0 <= wrap32 (tsn - st_front s) < Z.of_nat (length (st_infl s)).
+Proof.
+  unfold infl_get. destruct (st_infl s) as [|a l] eqn:E; [discriminate|].
+  destruct (wrap32 (tsn - st_front s) >=? Z.of_nat (length (a :: l))) eqn:E2; [discriminate|].
+  intros _. unfold wrap32 in *. lia.
+Qed.
